@@ -531,6 +531,8 @@ class Ensemble(_Base):
         if out.get('error'):
             if self._pinned_d3(case, out, an):
                 return fs
+            if out['error'] == 'EMDSiftCovergeError':
+                return fs      # documented non-convergence error of an underlying extraction: C04's matter, not C08's
             kind = 'raises:' + out['error']
             if out['error'] == 'ValueError' and flip and 'broadcast' in out['msg']:
                 kind += ':flip-runs-differ-in-column-count'
@@ -795,6 +797,8 @@ class Complete(_Base):
         if isinstance(out, ImplError):
             return [Failure('trace-failed:' + out['error'], out['msg'])]
         if out.get('error'):
+            if out['error'] == 'EMDSiftCovergeError':
+                return []      # documented non-convergence error of an underlying extraction (C04)
             return [Failure('raises:' + out['error'], out['msg'])]
         an = self._analyse(case, out)
         fs = []
